@@ -136,7 +136,7 @@ static void blk_squares(void) {
 }
 /* ---------------- points ---------------- */
 #define NPTS 16
-static EC_POINT *RPT[NPTS]; static SM2_Z256_POINT LPT[NPTS]; static const char *PNAME[NPTS] = { "O", "O(0,0,0)", "G", "-G", "2G", "P", "-P", "2P", "Q", "P(Z=7)", "G(Z=R-ish)", "3G", "(0,sqrt(b))", "(0,-sqrt(b))", "P(stored Z = the integer 1)", "G(stored Z = the integer 2)" }; /* the last two: representatives whose Z in the library's (Montgomery) storage is the WORD 1 / 2, i.e. z = R^-1, 2R^-1: what a test "Z == 1" written against the wrong constant mistakes for a normalised point */
+static EC_POINT *RPT[NPTS]; static SM2_Z256_POINT LPT[NPTS]; static const char *PNAME[NPTS] = { "O", "O(0,0,0)", "G", "-G", "2G", "P", "-P", "2P", "Q", "P(Z=7)", "G(Z=R-ish)", "3G", "(0,sqrt(b))", "(0,-sqrt(b))", "P(storedZ=1)", "G(storedZ=2)" }; /* the last two: representatives whose Z in the library's (Montgomery) storage is the WORD 1 / 2, i.e. z = R^-1, 2R^-1: what a test "Z == 1" written against the wrong constant mistakes for a normalised point */
 static void build_points(void) {
 	const EC_GROUP *g = sr_group(); BN_CTX *c = sr_ctx(); BIGNUM *k = BN_new(), *one = BN_new(), *z = BN_new(); BN_one(one);
 	for (int i = 0; i < NPTS; i++) RPT[i] = EC_POINT_new(g);
